@@ -256,8 +256,10 @@ def _run_proc(ctx, binary, cases, par, deadline, tag):
     return events, crash
 
 
-def run_cases(ctx, binary, cases, procs, par, deadline, tag):
-    """Run the cases in `procs` harness processes.  Returns ({case id: events}, [Crash...])."""
+def run_cases(ctx, binary, cases, procs, par, deadline, tag, resume=False):
+    """Run the cases in `procs` harness processes.  Returns ({case id: events}, [Crash...]).  With
+    resume, a process that was killed by a panic inside the stream is restarted on the cases it had not
+    reached yet (the crashed trace itself is not repeated)."""
     shards = [cases[i::procs] for i in range(procs)]
     shards = [s for s in shards if s]
     res = [None] * len(shards)
@@ -265,7 +267,20 @@ def run_cases(ctx, binary, cases, procs, par, deadline, tag):
 
     def work(i):
         try:
-            res[i] = _run_proc(ctx, binary, shards[i], par, deadline, "%s-%d" % (tag, i))
+            todo, events, crashes = shards[i], {}, []
+            for attempt in range(40):
+                ev, crash = _run_proc(ctx, binary, todo, par, deadline, "%s-%d-%d" % (tag, i, attempt))
+                events.update(ev)
+                if not crash:
+                    break
+                crashes.append(crash)
+                if not resume:
+                    break
+                done = set(ev)
+                todo = [c for c in todo if c["id"] not in done]
+                if not todo:
+                    break
+            res[i] = (events, crashes)
         except Exception as e:           # noqa: BLE001 - re-raised below
             errs.append(e)
     ths = [threading.Thread(target=work, args=(i,)) for i in range(len(shards))]
@@ -276,10 +291,10 @@ def run_cases(ctx, binary, cases, procs, par, deadline, tag):
     if errs:
         raise errs[0]
     events, crashes = {}, []
-    for ev, crash in res:
+    for ev, crs in res:
         events.update(ev)
-        if crash:
-            crash.unfinished = {k: e for k, e in ev.items() if not complete(e) and e and e[0]["ev"] == "reset"}
+        for crash in crs:
+            crash.unfinished = {k: e for k, e in crash.events.items() if not complete(e) and e and e[0]["ev"] == "reset"}
             crashes.append(crash)
     return events, crashes
 
@@ -561,7 +576,8 @@ def run(ctx):
         cases[i] = gen_case(rng, i, KINDS[i % len(KINDS)])
     procs = min(vlib.NCPU, 8)
     # one trace at a time per process: a panic inside the stream is then attributable to exactly one trace
-    events, crashes = run_cases(ctx, binary, list(cases.values()), procs=procs, par=1, deadline=deadline, tag="random")
+    events, crashes = run_cases(ctx, binary, list(cases.values()), procs=procs, par=1, deadline=deadline, tag="random",
+                                resume=True)
     wid = n + 1
     wit = {wid: witness_noconn(wid, "unix"), wid + 1: witness_noconn(wid + 1, "tcp")}
     cases.update(wit)
